@@ -192,7 +192,7 @@ class TermList(ABC):
         terms = []
         for t in self.terms:
             if list_intersection(t.vars, variable_list):
-                terms.append(t)
+                terms.append(t.copy())
         return type(self)(terms)
 
     def __and__(self: TermList_t, other: TermList_t) -> TermList_t:
